@@ -3,6 +3,7 @@ import ast
 
 from mstatic.core import AnalysisError, dotted, norm, own_nodes
 from mstatic.rules import util as U
+from mstatic.statedom import OBJ
 
 CMDS = 'mistral.workflow.commands'
 
@@ -132,3 +133,146 @@ def subworkflow_recursion_unrestricted(ctx, rule, fq, rec_name):
                    'recursion (the only legitimate filter is the '
                    'sub-workflow\'s own state)' % sorted(missing),
                    ctx.loc(f, c))
+    # ... and that filter lets every unfinished sub-workflow through
+    # (PAUSED and IDLE ones included)
+    done = sd.pred_set('is_completed')
+    IN, keys = sd.analyze(cfg, f, [('sub_wf_ex.state', sd.state_domain)],
+                          kill=lambda c: ())
+    for n, c in rec:
+        vals = sd.values_at(IN, keys, n, 'sub_wf_ex.state')
+        missing = set(sd.ALL) - done - vals
+        rule.check(not missing, ctx.construct(
+            f, extra='recursion for every unfinished sub-workflow'),
+            'unfinished sub-workflows in state %s are skipped by the '
+            'recursion (and so is everything below them)' % sorted(missing),
+            ctx.loc(f, c))
+
+
+def accepted_tracks_completion(ctx, rule):
+    """`wf_ex.accepted` is what a parent (with-items) task counts and what
+    results are built from: after every successful Workflow.set_state it
+    must equal is_completed(new state) - set on completion AND cleared when
+    a finished sub-workflow is re-run."""
+    prog = ctx.prog
+    f = prog.func('mistral.engine.workflows.Workflow.set_state')
+    cfg = ctx.cfg(f)
+    st = f.params[1]
+    stores = []
+    for t, s in U.attr_stores(f.node):
+        if t.attr == 'accepted' and norm(t.value) == 'self.wf_ex':
+            stores.append(s)
+    if not stores:
+        raise AnalysisError('Workflow.set_state no longer writes accepted')
+    done = 'states.is_completed(%s)' % st
+    good = []
+    for s in stores:
+        sn = cfg.stmt_node(s)
+        v = norm(s.value)
+        ok = v == done or \
+            (v == 'True' and U.guarded(cfg, sn, done, True)) or \
+            (v == 'False' and U.guarded(cfg, sn, done, False))
+        rule.check(ok, ctx.construct(f, s),
+                   'accepted is set to %s, not to is_completed(%s)'
+                   % (v, st), ctx.loc(f, s))
+        if ok:
+            good.append(sn)
+    rets = [x for x in cfg.nodes if x.kind == 'stmt' and
+            isinstance(x.ast, ast.Return) and x.ast.value is not None and
+            norm(x.ast.value) == 'True']
+    if not rets:
+        raise AnalysisError('Workflow.set_state: "return True" lost')
+    rule.check(cfg.must_pass(cfg.entry, good, exits=rets),
+               ctx.construct(f, extra='accepted written on every successful '
+                             'state change'),
+               'a successful state change can leave accepted unchanged (a '
+               're-run sub-workflow would still count as finished for its '
+               'parent with-items task)', ctx.loc(f))
+
+
+def affected_tasks_cover_completed(ctx, rule):
+    """task_handler._check_affected_tasks looks for joins to refresh after
+    a task reached ANY completed state (SKIPPED included) as long as the
+    workflow is unfinished: a narrower guard leaves the joins behind that
+    task WAITING for ever (nothing else refreshes them)."""
+    prog, sd = ctx.prog, ctx.sd
+    f = prog.func('mistral.engine.task_handler._check_affected_tasks')
+    cfg = ctx.cfg(f)
+    done = sd.pred_set('is_completed')
+    tvar = f.params[0] + '.task_ex.state'
+    IN, keys = sd.analyze(
+        cfg, f, [(tvar, sd.state_domain), ('wf_ex.state', sd.state_domain),
+                 (f.params[0] + '.task_ex', (OBJ,))],
+        kill=lambda c: (), types={f.params[0]: 'mistral.engine.tasks.Task'})
+    got = U.calls_in(cfg, 'find_indirectly_affected_task_executions')
+    if not got:
+        raise AnalysisError('_check_affected_tasks no longer asks the '
+                            'controller for affected tasks')
+    for n, c in got:
+        vals = {v[0] for v in IN[n.id]}
+        missing = done - vals
+        rule.check(not missing, ctx.construct(f, extra='every completed '
+                                              'task state'),
+                   'joins behind a task that ended in %s are never '
+                   'refreshed' % sorted(missing), ctx.loc(f, c))
+        wvals = {v[1] for v in IN[n.id]}
+        missing = set(sd.ALL) - done - wvals
+        rule.check(not missing, ctx.construct(f, extra='every unfinished '
+                                              'workflow state'),
+                   'joins are not refreshed while the workflow is %s'
+                   % sorted(missing), ctx.loc(f, c))
+    # every affected task gets a refresh registered
+    loops = [x for x in own_nodes(f.node) if isinstance(x, ast.For) and
+             any(isinstance(y, ast.Call) and
+                 U.call_name(y) == 'register_operation'
+                 for y in ast.walk(x))]
+    src = [x for x in own_nodes(f.node) if isinstance(x, ast.Assign) and
+           isinstance(x.value, ast.Call) and U.call_name(x.value) ==
+           'find_indirectly_affected_task_executions']
+    rule.check(bool(loops) and bool(src) and
+               dotted(loops[0].iter) == dotted(src[0].targets[0]) and
+               not any(isinstance(y, (ast.Break, ast.Continue, ast.Return))
+                       for y in ast.walk(loops[0])),
+               ctx.construct(f, extra='refresh for every affected task'),
+               'a refresh is not registered for every affected task',
+               ctx.loc(f))
+
+
+def affected_walk_stops(ctx, rule):
+    """DirectWorkflowController.find_indirectly_affected_task_executions
+    walks outbound transitions and may stop only at a task already visited
+    (cycle), at an engine command, or at a join that HAS a task execution
+    (which is then returned).  A join that was never created is walked
+    through: the joins behind it still have to learn that their route
+    became impossible."""
+    prog = ctx.prog
+    f = prog.func('mistral.workflow.direct_workflow.DirectWorkflowController'
+                  '.find_indirectly_affected_task_executions')
+    cfg = ctx.cfg(f)
+    loops = [x for x in own_nodes(f.node) if isinstance(x, ast.While)]
+    exp = [n for n, c in cfg.calls(
+        lambda c: U.call_name(c) == 'update' and c.args and
+        U.phas(c.args[0], '___.find_outbound_task_names(___)'))]
+    if not loops or not exp:
+        raise AnalysisError('affected-task walk lost its loop / expansion')
+    stops = [x for x in cfg.nodes if x.kind == 'stmt' and
+             isinstance(x.ast, (ast.Continue, ast.Break, ast.Return)) and
+             any(y is x.ast for y in ast.walk(loops[0]))]
+    for x in stops:
+        ok = U.guarded(cfg, x, '__t in visited_task_names', True) or \
+            U.guarded(cfg, x, 'self.wf_spec.get_tasks()[__t]', False) or \
+            (U.guarded(cfg, x, '__t in all_joins', True) and
+             U.guarded(cfg, x, '__t in t_execs_cache', True))
+        rule.check(ok, ctx.construct(f, x.ast),
+                   'the walk stops at a task for a reason other than '
+                   '"visited", "engine command" or "join that has a task '
+                   'execution": joins behind a join that was never created '
+                   'are not refreshed', ctx.loc(f, x.ast))
+    adds = [n for n, c in cfg.calls(
+        lambda c: U.call_name(c) == 'add' and dotted(c.func.value) == 'res')]
+    rule.check(bool(adds) and all(
+        U.guarded(cfg, n, '__t in all_joins', True) for n in adds),
+        ctx.construct(f, extra='only joins are returned'),
+        'tasks other than joins are returned for a refresh', ctx.loc(f))
+    rule.check(len(stops) >= 3, ctx.construct(f, extra='stop conditions'),
+               'expected the three stop conditions of the walk',
+               ctx.loc(f))
